@@ -2,6 +2,9 @@
 C01 / C03 / C06 / C07 / C11 / C16).  Runs on the symbolic engine and on the concrete replay context."""
 from harness import common
 from oracles import gwl
+from fractions import Fraction
+
+HALF_CENT = Fraction(1, 200)   # exact: the float 0.005*n is not the rational n/200
 
 
 class World:
@@ -166,14 +169,14 @@ def check_replay_bounds(ctx, W, sim, prop="C03"):
     format's rounding per record touching the well); every single step <= worklist max_volume"""
     for (rack, w), vol, n, kd, irec in sim.trace:
         lab = W.labs[rack]
-        tol = 0.005 * n
+        tol = HALF_CENT * n
         if kd == "A":
             ctx.prove(ctx.le(lab.min_volume - tol, vol), f"{prop}: replayed record {irec} takes {rack}{w} below min_volume")
         else:
             ctx.prove(ctx.le(vol, lab.max_volume + tol), f"{prop}: replayed record {irec} takes {rack}{w} above max_volume")
     for st in sim.steps:
         # the step volume as requested (pre-rounding) when the record carries it, else the written value minus the format's rounding
-        ex = st[5] if st[5] is not None else st[4] - 0.005
+        ex = st[5] if st[5] is not None else st[4] - HALF_CENT
         if st[0] in ("A", "D"):
             ctx.prove(ctx.le(ex, W.wl_max), f"{prop}: {st[0]} step exceeds the worklist max_volume")
         else:
@@ -185,7 +188,7 @@ def check_state_agreement(ctx, W, sim, prop="C01"):
     # (i) twin == simulation within rounding
     for (rack, w), sv in sim.vol.items():
         tv = W.labs[rack]._volumes[w]
-        ctx.prove(ctx.within(sv, tv, 0.005 * sim.touch[(rack, w)]), f"{prop}: replayed volume of {rack}{w} differs from the tracked volume")
+        ctx.prove(ctx.within(sv, tv, HALF_CENT * sim.touch[(rack, w)]), f"{prop}: replayed volume of {rack}{w} differs from the tracked volume")
 
 
 def check_flows(ctx, W, sim, prop="C01"):
@@ -215,10 +218,15 @@ def check_flows(ctx, W, sim, prop="C01"):
             ctx.prove(ctx.eq(a, b), f"{prop}: net flow at {key} differs from the requested one")
         else:
             n = sum(1 for st in sim.steps if st[0] != "R" and (st[1], st[3]) == key) + sum(st[6] for st in sim.steps if st[0] == "R")
-            ctx.prove(ctx.within(a, b, 0.005 * max(n, 1)), f"{prop}: net flow at {key} differs from the requested one")
+            ctx.prove(ctx.within(a, b, HALF_CENT * max(n, 1)), f"{prop}: net flow at {key} differs from the requested one")
 
 
 def check_composition(ctx, W, sim, prop="C01"):
+    tol = 0
+    if not ctx.symbolic:
+        # concrete replay: the records carry rounded volumes; if rounding lost anything the mixture can only be compared loosely
+        exact = all(abs(float(sv) - float(W.labs[r]._volumes[w])) < 1e-9 for (r, w), sv in sim.vol.items())
+        tol = 1e-6 if exact else 0.05
     for (rack, w), comp in sim.comp.items():
         lab = W.labs[rack]
         if comp is None:
@@ -226,4 +234,4 @@ def check_composition(ctx, W, sim, prop="C01"):
         names = set(comp) | set(lab.composition or {})
         for n in sorted(names):
             tw = lab.composition[n][w] if n in (lab.composition or {}) else 0
-            ctx.prove(ctx.within(sim.frac((rack, w), n), tw, 1e-9 if not ctx.symbolic else 0), f"{prop}: composition of {rack}{w} ({n}) differs from the replayed mixture")
+            ctx.prove(ctx.within(sim.frac((rack, w), n), tw, tol), f"{prop}: composition of {rack}{w} ({n}) differs from the replayed mixture")
